@@ -192,6 +192,7 @@ func (cr *crun) iteration(out *bufio.Writer, logged bool) {
 	cr.ctr = 0
 	var main []cev
 	step := func(g string, op *Op, evs *[]cev) {
+		defer atomic.AddInt64(&progress, 1)
 		if !logged {
 			cr.exec1(g, op, nil)
 			return
@@ -236,8 +237,34 @@ func (cr *crun) iteration(out *bufio.Writer, logged bool) {
 	out.Flush()
 }
 
+// progress counts completed operations of the child; its watchdog calls the run hung only when
+// NO operation has completed for 45 s (a slow, loaded machine still makes progress; a deadlock does not).
+var progress int64
+
+func hangWatchdog() {
+	last, since := int64(-1), time.Now()
+	for {
+		time.Sleep(2 * time.Second)
+		p := atomic.LoadInt64(&progress)
+		if p != last {
+			last, since = p, time.Now()
+			continue
+		}
+		if time.Since(since) > 45*time.Second {
+			buf := make([]byte, 1<<16)
+			buf = buf[:runtime.Stack(buf, true)]
+			if len(buf) > 1200 {
+				buf = buf[:1200]
+			}
+			fmt.Fprintf(os.Stderr, "HANG: no operation completed for 45s\n%s\n", buf)
+			os.Exit(67)
+		}
+	}
+}
+
 // cmdConc1 is the child: one case from stdin, events to stdout.
 func cmdConc1() {
+	go hangWatchdog()
 	b, _ := io.ReadAll(os.Stdin)
 	var c Case
 	if err := json.Unmarshal(b, &c); err != nil {
@@ -284,6 +311,8 @@ func (rn *runner) runConcCase(c *Case, raw []byte) {
 		if err != nil {
 			es := stderr.String()
 			switch {
+			case strings.Contains(es, "HANG: no operation completed"):
+				kind = "hang"
 			case strings.Contains(es, "DATA RACE"):
 				kind = "race"
 			case strings.Contains(es, "fatal error:"):
@@ -294,10 +323,12 @@ func (rn *runner) runConcCase(c *Case, raw []byte) {
 				kind = "exit"
 			}
 		}
-	case <-time.After(90 * time.Second):
+	case <-time.After(20 * time.Minute):
+		// the child still completes operations (its own watchdog did not fire) but is far too slow: not a verdict
 		cmd.Process.Kill()
 		<-done // the copier goroutines must be finished before the buffers are read
-		kind = "hang"
+		fmt.Fprintln(os.Stderr, "conc: child exceeded 20 minutes while making progress (overloaded machine?)")
+		os.Exit(2)
 	}
 	n := 0
 	for _, line := range strings.Split(stdout.String(), "\n") {
